@@ -57,10 +57,26 @@ pub fn completion_bytes(seed: u32, n: usize) -> Vec<u8> {
 
 /// Check one input against the statement; `deep` also runs the completion metamorphic steps.
 pub fn judge_with(c: &Case, st: &mut Stats, deep: bool) -> Verdict {
+    judge_with_at(c, &c.input, st, deep)
+}
+
+/// `x` holds the bytes of `c.input` (possibly at another address: the thread's reusable read buffer).
+pub fn judge_with_at(c: &Case, x: &Vec<u8>, st: &mut Stats, deep: bool) -> Verdict {
     st.eval();
-    let x = &c.input;
     let got = imp::v2_parse(x);
     let want = v2_ref(x);
+    // the auto-detecting entry point hands on the v2 parser's incomplete results: their counts must be the same exact ones
+    if let Ok(ppp::HeaderResult::V2(Err(e))) = imp::auto(x) {
+        let exact = match (&e, &want) {
+            (E2::Incomplete(n), V2Ref::Incomplete(m)) => n == m,
+            (E2::Partial(a, b), V2Ref::Partial(c2, d)) => a == c2 && b == d,
+            (E2::Incomplete(_), _) | (E2::Partial(..), _) => false,
+            _ => true,
+        };
+        if !exact {
+            return Err(Fail::new("counts-through-auto-detection", shape2(x), "HeaderResult::parse", format!("{:?}", want), format!("V2(Err({:?}))", e)));
+        }
+    }
     let r = match &got {
         Ok(r) => r,
         Err(_) => return Ok(()), // C03's business
@@ -166,7 +182,8 @@ pub fn judge_with(c: &Case, st: &mut Stats, deep: bool) -> Verdict {
 }
 
 pub fn judge(c: &Case, st: &mut Stats) -> Verdict {
-    judge_with(c, st, true)
+    // parsed from this thread's reusable read buffer (same start address for consecutive cases)
+    crate::engine::in_arena(&c.input, |v| judge_with_at(c, v, st, true))
 }
 
 fn gen_case(t: &mut Tape) -> Case {
